@@ -340,6 +340,9 @@ def target_rows(draw, sysd, kinds, nrows=(1, 4), margin=(0.05, 0.45)):
             else:
                 x[j] = -draw(st.floats(0.05, 0.5)) * sv.range[j]
             rows.append(dict(b=sv.predict(x).tolist(), kind="below_lb", x=x.tolist()))
+        elif kind == "dark":
+            # exactly the (transformed) baseline: nothing to add - with lb > 0 this is still not "all sources off"
+            rows.append(dict(b=np.asarray(sv.basep, dtype=float).tolist(), kind="dark"))
         elif kind == "below":
             v = np.asarray(draw(gens.array((m,), 0.0, 1.0, styles=("raw", "sparse"))))
             if not np.any(v > 0):
